@@ -685,6 +685,56 @@ def loop_body(f, c):
     lp = loop_of(f, c.bb)
     return lp[1] if lp else set()
 
+def r_alias_nested_coverage(r, prog):
+    """The search for an alias that contains itself through anonymous types follows *every* type reference nested in an anonymous type: for
+    each wrapper form (result, sequence, dictionary) nested_types_of hands back all the TypeRef fields of the form. A position that is left out
+    (a dictionary's key: only rejected later, by a validator that runs after this search) is a way for an alias to contain itself unnoticed."""
+    f = prog.fn(CD + "CycleDetector::<'a>::nested_types_of")
+    types_adt = 'slicec::grammar::wrappers::Types'
+    sws = enum_switches(f, types_adt)
+    if len(sws) != 1:
+        raise AnchorMissing('one match on Types in nested_types_of (found %d)' % len(sws))
+    sw = sws[0]
+    variants = prog.adts[types_adt]['variants']
+    n = 0
+    for vi, v in enumerate(variants):
+        payload = _payload_adt(v['fields'][0]['ty']) if v['fields'] else None
+        want = set(_typeref_fields(prog, payload)) if payload else set()
+        if not want or payload in {i['self_adt'] for i in prog.impls_of(CD + 'CycleCandidate')}:
+            continue
+        n += 1
+        tgt = sw['arms'].get(vi, sw['otherwise'])
+        others = [t for k, t in sw['arms'].items() if k != vi] + ([sw['otherwise']] if vi in sw['arms'] else [])
+        region = f.reachable(tgt, blocked=[t for t in others if t != tgt])
+        got = set()
+        for bb, j, st in f.stmts():
+            if bb not in region or 'rv' not in st or f.blocks[bb].get('cleanup'):
+                continue
+            rv = st['rv']
+            pl = rv.get('p') if rv['k'] in ('ref', 'rawptr') else None
+            if pl is not None:
+                got |= {pr.get('n') for pr in place_projs(pl) if isinstance(pr, dict) and 'f' in pr}
+        if want <= got and tgt not in [t for t in others]:
+            r.ok('Types::%s -> all of %s are followed' % (v['n'], sorted(want)))
+        else:
+            r.finding('alias-nesting-not-followed:%s' % v['n'], f.span, 'nested_types_of follows %s of a %s, not %s: an alias can contain itself through the position left out' % (sorted(got & want), v['n'], sorted(want - got)))
+    if n < 3:
+        raise AnchorMissing('anonymous wrapper forms in Types (found %d)' % n)
+    r.floor(3)
+
+
+def r_bases_complete(r, prog):
+    """base_interfaces() is the list as written: every base reference, in order, nothing filtered. The inheritance-loop search and the closure
+    are built on it; a base that is filtered out (the interface itself, say) is an inheritance loop nobody sees."""
+    f = prog.fn('slicec::grammar::elements::interface::Interface::base_interfaces')
+    ret = vexpr(f, {'cp': {'l': 0}}, depth=8)
+    if re.match(r'^collect\(map\(iter\(arg1\.bases\),fn:.*definition.*\)\)$|^collect\(map\(iter\(arg1\.bases\),(closure\(\)|[\w:<>]*definition[\w:<>]*)\)\)$', ret):
+        r.ok('base_interfaces() = bases.iter().map(definition).collect()')
+    else:
+        r.finding('bases-filtered', f.span, 'base_interfaces() returns %s: expected every base reference mapped to its definition, nothing else' % ret[:160])
+    r.floor(1)
+
+
 def run(ctx):
     prog = ctx.prog
     ctx.run_rule('C05.1a', 'T2', 'cycle detection runs first; everything else in validate_ast is behind the no-errors edge', r_cycles_first, prog)
@@ -699,4 +749,6 @@ def run(ctx):
     ctx.run_rule('C05.7', 'T10', 'fresh search state per root; candidates scan on every path; cycles identified by scoped names', r_search_state_and_identity, prog)
     from props import c03 as _c03
     ctx.run_rule('C05.9', 'T10', 'every link of an alias chain is looked up from the module of the alias it is written in: a chain through several modules is not taken for a loop', _c03.r_lookup_scope, prog)
+    ctx.run_rule('C05.6b', 'T5', 'the alias self-containment search follows every type reference nested in an anonymous type', r_alias_nested_coverage, prog)
+    ctx.run_rule('C05.5b', 'T10', 'the inheritance search sees every base as written (base_interfaces filters nothing)', r_bases_complete, prog)
     ctx.run_rule('C05.8', 'T2', 'dead ends: recorded only after a complete search that found nothing; per root', r_dead_ends, prog)
